@@ -629,6 +629,7 @@ func drive(env *fw.Env, b fw.Behaviour) *fw.Trace {
 // ---- generation plumbing --------------------------------------------------------------------
 
 var seenBeh = map[string]bool{}
+var expandK int
 
 var allFixes = `{"ptrShape", "condIdxDelete", "hbRefresh", "successOnly"}`
 var firstThree = `{"ptrShape", "condIdxDelete", "hbRefresh"}` // repaired by patches C08-1..3
@@ -696,6 +697,7 @@ func main() {
 					lkJob("mc:lookup:1x3", two, 3, both, false),
 					lkJob("mc:lookup:3nodes:1x2", three, 2, both, false),
 					lkJob("mc:writing-lookup:1x3", two, 3, "{"+allFixes+"}", true),
+					lkJob("mc:writing-lookup:1x2", two, 2, "{"+allFixes+"}", true),
 					altJob("mc:keep-created-at:1x2", "KEEPCA"),
 					altJob("mc:request-id:1x2", "USEREQ"),
 				}
@@ -704,11 +706,10 @@ func main() {
 			// without any repair, the pointer and map shapes: thorough; their routes to a violation
 			// are also driven from gen:dev)
 			return []fw.TLCJob{
-				mcJob("mc:1x3", two, 3, `{"X"}`, `{"str"}`, "{"+firstThree+", "+allFixes+"}"),
+				mcJob("mc:1x3", two, 3, `{"X"}`, `{"str"}`, "{"+allFixes+"}"), // the tree as it is now (C08-1..4 applied); other fix sets: thorough
 				lkJob("mc:lookup:1x2", two, 2, "{"+allFixes+"}", false),
-				lkJob("mc:writing-lookup:1x2", two, 2, "{"+allFixes+"}", true),
-				altJob("mc:keep-created-at:1x2", "KEEPCA"),
-				altJob("mc:request-id:1x2", "USEREQ"),
+				// the alternative designs (writing lookup, expiry from first registration, record from
+				// the request id) are checked in the thorough tier
 			}
 		},
 		// Histories are generated from the as-is model: event enabledness does not depend on the
@@ -735,17 +736,14 @@ func main() {
 					genJob("gen:3nodes", three, 3, `{"X"}`, 3, 7, `{"str"}`, "{}", "all"),
 				}
 			}
+			// quick: the targeted covers share TLC runs where the sample cannot starve either part
+			// (lost+close, long+longre); the two-client cover is left to the thorough tier
 			return []fw.TLCJob{
-				genJob("gen:first", two, 2, `{"X"}`, 2, 7, `{"str"}`, allFixes, "first"),
-				genJob("gen:dev", two, 3, `{"X"}`, 3, 7, `{"str", "ptr"}`, "{}", "dev"),
-				genJob("gen:lost", two, 3, `{"X"}`, 3, 8, `{"str"}`, allFixes, "lost"),
-				genJob("gen:close", two, 3, `{"X"}`, 3, 8, `{"str"}`, allFixes, "close"),
+				genJob("gen:dev", two, 3, `{"X"}`, 3, 6, `{"str", "ptr"}`, "{}", "dev"),
+				genJob("gen:lost+close", two, 3, `{"X"}`, 3, 7, `{"str"}`, allFixes, "lostclose"),
 				genJob("gen:lookup", two, 2, `{"X"}`, 2, 8, `{"str"}`, allFixes, "lookup"),
-				genJob("gen:reauth", two, 3, `{"X"}`, 3, 7, `{"str"}`, allFixes, "reauth"),
-				genJob("gen:long", two, 2, `{"X"}`, 3, 8, `{"str"}`, allFixes, "long"),
-				genJob("gen:longre", two, 2, `{"X"}`, 3, 8, `{"str"}`, allFixes, "longre"),
+				genJob("gen:re+long", two, 3, `{"X"}`, 3, 7, `{"str"}`, allFixes, "relong"),
 				genJob("gen:asis", two, 3, `{"X"}`, 3, 7, `{"str"}`, "{}", "all"),
-				genJob("gen:two", two, 2, `{"X", "Y"}`, 2, 7, `{"str"}`, "{}", "all"),
 			}
 		},
 		MaxBehSrc: func(env *fw.Env, src string) int {
@@ -753,10 +751,15 @@ func main() {
 			if env.Tier == "thorough" {
 				return 420
 			}
-			if src == "gen:asis" || src == "gen:two" {
-				return 24
+			switch src {
+			case "gen:asis":
+				return 30
+			case "gen:lost+close":
+				return 60
+			case "gen:re+long":
+				return 84
 			}
-			return 30
+			return 36
 		},
 		Expand: func(env *fw.Env, src string, raw json.RawMessage) []json.RawMessage {
 			var steps []step
@@ -768,6 +771,20 @@ func main() {
 				return nil
 			}
 			seenBeh[key] = true
+			// A client's first successful handshake may equally be a first-connection handshake
+			// (AuthOK(n,c,x,"new"): same store effect in the model, enabled whenever x was never seen):
+			// every second behaviour takes that variant for each client that allows it.
+			if expandK++; expandK%2 == 0 {
+				seen := map[string]bool{}
+				for i, st := range steps {
+					if (st.A == "Auth" || st.A == "AuthLost") && !seen[st.X] {
+						seen[st.X] = true
+						if st.A == "Auth" {
+							steps[i].W = "new"
+						}
+					}
+				}
+			}
 			// a behaviour without a successful handshake never touches the registry
 			auth := false
 			for _, s := range steps {
